@@ -38,6 +38,7 @@ Judge(e) ==
                  SignonClauses(inst, e.cfg, Anonymous, Anonymous) \o
                  << <<"profile-one-wrapper", Len(Members(inst, "profmsgsrqv1")) = 1 /\ Len(AllWrappers(inst)) = 1>>,
                     <<"profile-request", At(Members(inst, "profmsgsrqv1")[1], <<"profrq", "clientrouting">>) = Str(<<78, 79, 78, 69>>)>> >>
+            [] e.call = "select" -> SelectionClauses(inst, e.sel)
             [] e.call = "tax" ->
                  SignonClauses(inst, e.cfg, e.cfg.userid, e.password) \o
                  << <<"tax-one-wrapper", Len(Members(inst, "tax1099msgsrqv1")) = 1 /\ Len(AllWrappers(inst)) = 1>>,
